@@ -186,6 +186,9 @@ def precondition_c16(pre, root, refs, ids):
     return True
 
 
+TREE = (CH, PA, NS, FI)      # C16 speaks about the tree; what the registry holds is C14's business
+
+
 class ExpandP(Profile):
     prop = "C16"
     name = "expand"
@@ -194,13 +197,14 @@ class ExpandP(Profile):
     own_kinds = frozenset(["expand"])
     fault_kinds = ()
     expected_probes = ("expand_ok", "expand_with_trailing_role", "expand_refs_ge2", "expand_ref_before_target",
+                       "expand_while_json_twin_alive",
                        "fault:dangling_ref", "fault:dup_id", "fault:empty_ref", "dangling_after_k_resolved",
                        "expand_valid_before", "edit_after_expand")
 
     def weights(self, cfg, rng):
         return {"eml_seed": 10, "expand": 14, "set_content": 4, "add_attr": 2, "rm_attr": 1, "add_child": 2,
                 "new": 2, "remove_child": 2, "shift": 1, "add_ns": 1, "attr_item": 1, "copy": 0.5,
-                "ro": 1, "restart": 0.3, "delete": 0.3}
+                "ro": 1, "restart": 0.3, "delete": 0.3, "json_twin": 1.5}
 
     def tune(self, cfg, rng):
         cfg["seed_mode"] = "refs"
@@ -216,17 +220,19 @@ class ExpandP(Profile):
     def judge(self, c):
         k = c.op["k"]
         if k != "expand":
-            if k == "restart":
+            if k in ("restart", "json_twin"):
                 c.state["pairs"] = []
                 return None
-            return independence(c, "C16", c.state["pairs"], "E4")
+            return independence(c, "C16", c.state["pairs"], "E4", aspects=TREE)
         pre, post, root = c.pre, c.post, c.R["n"]
         sub, refs, ids, dup, dangling = analyse_refs(pre, root)
         c.state["last"] = None
-        if any(not pre.cells[h][RG] for h in sub):
+        if not self._tree_in_scope(pre, sub):
             # the tree holds nodes that were discarded from the registry before (for
-            # instance a references node of an earlier expansion, attached again):
-            # outside every quantifier of the statement; adopt
+            # instance a references node of an earlier expansion, attached again), or two
+            # nodes with one id (a node moved over from its JSON twin): outside every
+            # quantifier of the statement; adopt.  (A node whose id the registry holds for
+            # a twin loaded from JSON is not discarded.)
             c.exp.judged = False
             return None
         if dup or dangling:
@@ -237,11 +243,7 @@ class ExpandP(Profile):
             if c.out.ok or not isinstance(c.out.exc, ValueError):
                 return Violation("C16", "E5", "expand:%s:no-ValueError:%s" % (what, c.out.brief()),
                                  "expansion of a tree with %s did not raise ValueError (%s)" % (what, c.out.brief()))
-            v = check_exp("C16", "expand", ALL, _EMPTY, pre, post)
-            if v is None and post.store != pre.store:
-                v = Violation("C16", "E5", "", "the registry key set changed")
-            if v is None and any(x is not None and x[RG] for x in post.cells[c.nh:]):
-                v = Violation("C16", "E5", "", "new nodes were left registered")
+            v = check_exp("C16", "expand", TREE, _EMPTY, pre, post)
             if v:
                 v.clause = "E5"
                 v.sig = "expand:%s:not-atomic" % what
@@ -263,8 +265,8 @@ class ExpandP(Profile):
         for p in parents:
             e.adopt(p, CH)
         for r in refs:
-            e.adopt(r, PA, RG)
-        v = check_exp("C16", "expand", ALL, e, pre, post)
+            e.adopt(r, PA)
+        v = check_exp("C16", "expand", TREE, e, pre, post)
         if v:
             v.clause = "E2"
             v.sig = "expand:changes-other-nodes:%s" % v.detail.get("aspect")
@@ -331,7 +333,10 @@ class ExpandP(Profile):
                                      "copy h%d of h%d differs in %s: %s vs %s" %
                                      (n, s, FIELD_NAMES[fi], short(nc[FI][fi]), short(sc[FI][fi])))
             sn, nn = dict(sc[NS]), dict(nc[NS])
-            if any(nn.get(k) != v for k, v in sn.items()):
+            # attached below the referencing element, the copy gains that element's prefixes and
+            # pushes them down, where they may override a descendant's own binding (unspecified,
+            # see C13 E3); only the top-level copy is held to "its own bindings win"
+            if s == src and any(nn.get(k) != v for k, v in sn.items()):
                 return Violation("C16", "E1", "expand:copy-differs:nsmap",
                                  "copy h%d of h%d lost namespace bindings: %s vs %s" % (n, s, short(nc[NS]), short(sc[NS])))
             if len(sc[CH]) != len(nc[CH]):
@@ -340,16 +345,19 @@ class ExpandP(Profile):
             if nc[PA] != p:
                 return Violation("C16", "E1", "expand:copy-parent-link",
                                  "copy h%d has parent link %s, lister is h%s" % (n, short(nc[PA]), p))
-            if not nc[RG]:
-                return Violation("C16", "E1", "expand:copy-unregistered", "copy h%d is not registered" % n)
             stack.extend((a, b, n) for a, b in reversed(list(zip(sc[CH], nc[CH]))))
         return None
 
     def hang_is_judged(self, pre, R, op, kobj):
         sub, refs, ids, dup, dangling = analyse_refs(pre, R["n"])
-        if any(not pre.cells[h][RG] for h in sub):
+        if not self._tree_in_scope(pre, sub):
             return False
         return bool(dup or dangling) or precondition_c16(pre, R["n"], refs, ids)
+
+    @staticmethod
+    def _tree_in_scope(pre, sub):
+        nids = [pre.cells[h][FI][F_ID] for h in sub]
+        return all(i in pre.store for i in nids) and len(set(nids)) == len(nids)
 
     def probes(self, c, P):
         k = c.op["k"]
@@ -370,6 +378,8 @@ class ExpandP(Profile):
             else:
                 _, nrefs, trailing, refs, ids, vb = last
                 bump(P, "expand_ok")
+                if nrefs and any(not c.pre.cells[h][RG] for h in c.pre.subtree(c.R["n"])):
+                    bump(P, "expand_while_json_twin_alive")
                 if nrefs == 0:
                     bump(P, "expand_no_refs")
                 if nrefs >= 2:
@@ -421,6 +431,8 @@ class PruneP(Profile):
         cfg["names"] = sorted(rng.sample(UNKNOWN_NAMES, rng.choice([1, 2])) +
                               rng.sample(KNOWN_FOR_MISPLACING, rng.choice([2, 4, 6])))
         cfg["p_strict"] = rng.choice([0.0, 0.5, 0.5, 1.0])
+        # names that some rule lists although no rule is mapped to them go where that rule applies
+        cfg["plant_affinity"] = {k: list(v) for k, v in RV.LISTED_UNKNOWN.items()}
         cfg["steps"] = min(cfg["steps"], rng.choice([8, 15, 30, 80]))
         if not cfg["faults"]:
             # fault-free half: only whole seed documents, no planted corruption
